@@ -86,7 +86,20 @@ func runPipelined(c hCase, ls hRun) ([]byte, string) {
 		}
 		return st
 	}
-	for _, s := range ls.steps {
+	for si, s := range ls.steps {
+		if c.ShutdownAt == si+1 {
+			// the graceful Shutdown begins at the same place in the history:
+			// everything before it has been dealt with
+			flush()
+			if st := settle(); st != harness.QIdle && st != harness.QClosed {
+				w.Finish()
+				return nil, "pipelined run: server not idle before Shutdown begins: " + st
+			}
+			if !r.BeginShutdown() {
+				w.Finish()
+				return nil, "pipelined run: graceful Shutdown did not close the listener (watchdog)"
+			}
+		}
 		if s.Barrier {
 			// each group on its own, the server settled in between
 			flush()
@@ -191,6 +204,9 @@ func c04Run(c hCase) Verdict {
 	}
 	for k := range m.classes {
 		v.Classes = append(v.Classes, k)
+	}
+	if c.ShutdownAt > 0 && c.ShutdownAt <= len(ls.steps) {
+		v.Classes = append(v.Classes, "graceful_shutdown_begun_mid_history")
 	}
 	if c.Discipline == "" {
 		v.Classes = append(v.Classes, "lockstep_only")
